@@ -8,7 +8,8 @@
    prescribed state; this holds on EVERY message for the items that parse, and reading the first
    item that does not parse fails and exhausts the reader.
    Not proved (decided by the scripts stream, where the extracted abstract reader is the oracle,
-   DESIGN.md 5 C09 and 12): the owned/typed flavours inside whole scripts, seek-by-skipping. *)
+   DESIGN.md 5 C09 and 12): the owned/typed flavours inside whole scripts; a seek-by-skipping that
+   meets an item that does not parse (only: it fails and exhausts the reader, C09_error_latches). *)
 From RsdnsModel Require Import Base Cursor Names Labels Header Tracker RData Reader.
 From RsdnsModel.Spec Require Import LinearPass.
 From RsdnsModel.Proofs Require Import Latch ReaderTotal LatchFull TrackerRefine SpecExec ParseSpec ReaderRefine.
@@ -178,6 +179,26 @@ Theorem C09_unparsable_record_fails : forall msg nq an ns ar qs rs e1 e2, parsed
     exists r1 r2 e, rd_marker msg r = (r1, Ok (OMarker mk)) /\ rd_skip_data mk r1 = (r2, Err e) /\ r_done r2 = true
   end.
 Proof. exact fail_record_any. Qed.
+
+(* seek to a section whose offset is NOT known (the high-water mark has not passed its first item):
+   on a reader standing right behind the header (idx 0) the reader gets there by skipping — all
+   questions, then the lower sections record by record — and, if everything up to the target
+   parses, ends exactly where a seek to a known offset would, with the high-water mark raised to
+   the target; from anywhere else the seek is refused with RecordsSectionOffsetUnknown and the
+   reader is unchanged. *)
+Theorem C09_seek_by_skipping : forall msg nq an ns ar qs rs e1 e2, parsed msg nq an ns ar qs rs e1 e2 ->
+  forall r hw s, RState msg nq an ns ar qs rs e2 r 0 hw -> s < 3 ->
+  known (lin nq an ns ar) (mkA 0 hw false None) s = false ->
+  lenN qs = nq -> sec_start (lin nq an ns ar) s <= lenN rs ->
+  exists r', rd_seek msg s r = (r', Ok OUnit) /\
+             RState msg nq an ns ar qs rs e2 r' (nq + sec_start (lin nq an ns ar) s) (N.max hw (nq + sec_start (lin nq an ns ar) s)).
+Proof. exact seek_skip_any. Qed.
+
+Theorem C09_seek_refused : forall msg nq an ns ar qs rs e1 e2, parsed msg nq an ns ar qs rs e1 e2 ->
+  forall r idx hw s, RState msg nq an ns ar qs rs e2 r idx hw -> s < 3 ->
+  known (lin nq an ns ar) (mkA idx hw false None) s = false ->
+  0 < idx -> idx <= lenN qs + lenN rs -> rd_seek msg s r = (r, Err (RecordsSectionOffsetUnknown s)).
+Proof. exact seek_refused_any. Qed.
 
 (* the state right after header(): a whole-message cursor at offset 12 and the tracker built from
    the header represent (0, 0) *)
